@@ -534,16 +534,11 @@ def dscore(obs, sim, eps=1e-6):
 
     nval, nens = sim.shape
 
-    if nens == 1:
-        # Compute ensemble rank for deterministic forecasts
-        franks = np.argsort(np.argsort(sim[:, 0]))
-    else:
-        # initialise data
-        fmat = np.zeros((nval, nval), dtype=np.float64)
-        franks = np.zeros(nval, dtype=np.float64)
-
-        # Compute ensemble rank for ensemble forecasts
-        c_hydrodiy_stat.ensrank(eps, sim, fmat, franks)
+    # Compute ensemble rank (the kernel also handles deterministic
+    # forecasts, i.e. nens=1, and gives tied forecasts their mid-rank)
+    fmat = np.zeros((nval, nval), dtype=np.float64)
+    franks = np.zeros(nval, dtype=np.float64)
+    c_hydrodiy_stat.ensrank(eps, sim, fmat, franks)
 
     # Compute obs rank
     oranks = np.argsort(np.argsort(obs))
